@@ -6,12 +6,14 @@ import coregen as cg
 import corecases as cc
 
 PROP = 'C08'
-LEAN_TARGETS = ['MorphKgc.Props.C08']
-GEN_KEYS = []
+LEAN_TARGETS = ['MorphKgc.Props.C08', 'MorphKgc.Props.CoreFuncs']
+GEN_KEYS = ['core']
 M = 'MorphKgc.Props.C08'
 THEOREMS = [{'name': f'Props.C08.{n}', 'module': M} for n in [
     'C08_graph_terms', 'C08_null_graph_places_nothing', 'C08_default_graph_iff', 'C08_projection_spec', 'C08_projection',
     'C08_class_gets_subject_graphs']]
+# the triple assembly and graph-term code of `_materialize_rml_rule`, translated from /repo, is equal to Model.rowTriple
+THEOREMS += [{'name': 'Props.CoreFuncs.rowTriple_eq', 'module': 'MorphKgc.Props.CoreFuncs'}]
 RULE = ('documents with 0-2 constant / template / reference graph maps on subject maps and on predicate-object maps, rr:defaultGraph alone and '
         'among others, classes, NULL graph values x CSV tables; both formats are run: (a) the N-QUADS result against Spec.evalDoc (fourth '
         'component), (b) the N-TRIPLES result against the graph-less projection of the N-QUADS result, tokenised term by term, '
